@@ -20,6 +20,10 @@ Proof. reflexivity. Qed.
 Lemma reader_accepts_writer : existsb (Z.eqb cs_npy_write_major) cs_npy_read_versions = true.
 Proof. reflexivity. Qed.
 
+(* a modelled dtype: printable descriptor, kind b i u f c S V, item size isz *)
+Definition dtype_ok (descr : bytes) (isz : nat) : Prop :=
+  descr_ok descr /\ itemsize descr = Some isz /\ kind_modelled descr = true.
+
 (* ---------- items <-> bytes ---------- *)
 Definition items_ok (isz : nat) (l : list item) : Prop := Forall (fun it => List.length it = isz) l.
 
